@@ -44,8 +44,29 @@ def worker_init(tier):
     _p = import_pytrs()
 
 
+_TRAPS = None
+
+
+def trap_blocks():
+    """Description blocks built around every alphabetic literal run of the library's patterns ('sec', 'section', 'lot', 'township',
+    'north', 'thru' ...): as the end of a longer word followed by a number, as the start of a longer word, inside a word, and as
+    the end of a word that ends the block.  None of them is a Twp/Rge or section reference."""
+    global _TRAPS
+    if _TRAPS is None:
+        from .c16 import alphabet, derive_alphabet
+        alphabet()
+        runs = [r for r in getattr(derive_alphabet, 'runs', []) if r.isalpha() and len(r) >= 2]
+        _TRAPS = []
+        for r in runs:
+            _TRAPS += [f"Parcel along the x{r} 50 feet wide", f"Parcel along the {r}x line", f"Parcel in the x{r}x tract", f"Parcel x{r}"]
+    return _TRAPS
+
+
+TRAP_STRUCTS = (0, 1)
+
+
 def units(tier):
-    us = []
+    us = [{'traps': True, 'layout': layout, 'struct': si} for layout in gen.LAYOUTS for si in TRAP_STRUCTS]
     for li, layout in enumerate(gen.LAYOUTS):
         for si in range(len(gen.STRUCTS)):
             for part in range(K[tier]):
@@ -113,6 +134,16 @@ def run_unit(unit, tier):
     layout, si = unit['layout'], unit['struct']
     struct = gen.STRUCTS[si]
     seen = set()
+    if unit.get('traps'):
+        for bi, block in enumerate(trap_blocks()):
+            res = gen.render(layout, struct, {}, blocks=[block, 'NE/4'])
+            if res is None:
+                continue
+            text, exp = res
+            acc.transitions += 1
+            judge(acc, layout, si, {'trap_block': block}, text, exp)
+            acc.guard('trap_blocks')
+        return acc.result()
     for level, r in gen.renderings(MAXDEV[tier]):
         if layout in ('TRS_desc', 'S_desc_TR') and r.get('conn'):
             continue    # the desc-section connector does not occur in section-first layouts
@@ -134,7 +165,10 @@ def run_unit(unit, tier):
 
 def replay(case):
     acc = Acc()
-    res = gen.render(case['layout'], gen.STRUCTS[case['struct']], case['rendering'])
+    if 'trap_block' in case['rendering']:
+        res = gen.render(case['layout'], gen.STRUCTS[case['struct']], {}, blocks=[case['rendering']['trap_block'], 'NE/4'])
+    else:
+        res = gen.render(case['layout'], gen.STRUCTS[case['struct']], case['rendering'])
     if res is None:
         return []
     text, exp = res
@@ -148,7 +182,7 @@ def guards(info):
     for lay in gen.LAYOUTS:
         if not g.get('layout_' + lay):
             out.append(f"layout never deduced: {lay}")
-    for name in ('pretty_ok', 'multi_tract'):
+    for name in ('pretty_ok', 'multi_tract', 'trap_blocks'):
         if not g.get(name):
             out.append(f"never observed: {name}")
     return out
